@@ -4,6 +4,7 @@ import Mathlib.Data.Rat.Floor
 import Uom.Proofs.BodyEq.Round
 import Uom.Proofs.FloatOps
 import Uom.Proofs.OracleSound
+import Uom.Proofs.MoreOracleSound
 /-!
 # C16 — rounding to a unit rounds the value as expressed in that unit
 
@@ -140,6 +141,33 @@ theorem oracle_accepts_rounding (c : ConvCase) (hf : c.fmt.WF) (h4 : 4 ≤ c.fmt
     oracleStdRounding c 3 g
         (toBase (flS c.fmt) c.coef c.consA (baseFactor (flS c.fmt) c.pows) (Fl.trunc c.fmt g)) ≠ .fail why :=
   Proofs.oracleStdRounding_sound c hf h4 hcA g hg why
+
+/-- the first rounding oracle (`floor.oracle` … `trunc.oracle`: the result read back in the unit is the
+    mathematical rounding of the exact value, within 8u) accepts the model's `roundInUnit` for every stored
+    value — given that the unit's two constants denote the same number (they differ only in the sign of
+    zero for real units: `UnitMac.declConst`; `oracle_rounding_needs_equal_constants` shows the hypothesis
+    cannot be dropped) -/
+theorem oracle_accepts_rounding_in_unit (c : ConvCase) (hf : c.fmt.WF) (h4 : 4 ≤ c.fmt.p)
+    (hcA : Fl.Canonical c.fmt c.consA) (hcS : Fl.Canonical c.fmt c.consS)
+    (hcc : c.consA.toRat = c.consS.toRat) (why : String) :
+    oracleRounding c 0 (roundInUnit (flS c.fmt) (Fl.floor c.fmt) c.coef c.consA c.consS
+      (baseFactor (flS c.fmt) c.pows) c.v) ≠ .fail why ∧
+    oracleRounding c 1 (roundInUnit (flS c.fmt) (Fl.ceil c.fmt) c.coef c.consA c.consS
+      (baseFactor (flS c.fmt) c.pows) c.v) ≠ .fail why ∧
+    oracleRounding c 2 (roundInUnit (flS c.fmt) (Fl.round c.fmt) c.coef c.consA c.consS
+      (baseFactor (flS c.fmt) c.pows) c.v) ≠ .fail why ∧
+    oracleRounding c 3 (roundInUnit (flS c.fmt) (Fl.trunc c.fmt) c.coef c.consA c.consS
+      (baseFactor (flS c.fmt) c.pows) c.v) ≠ .fail why :=
+  Proofs.MoreOracleSound.oracleRounding_sound c hf h4 hcA hcS hcc why
+
+theorem oracle_rounding_needs_equal_constants :
+    Proofs.MoreOracleSound.cexConst.consA.toRat ≠ Proofs.MoreOracleSound.cexConst.consS.toRat ∧
+    ∃ why, oracleRounding Proofs.MoreOracleSound.cexConst 0
+      (roundInUnit (flS b32) (Fl.floor b32) Proofs.MoreOracleSound.cexConst.coef Proofs.MoreOracleSound.cexConst.consA
+        Proofs.MoreOracleSound.cexConst.consS (baseFactor (flS b32) Proofs.MoreOracleSound.cexConst.pows)
+        Proofs.MoreOracleSound.cexConst.v) = .fail why :=
+  ⟨Proofs.MoreOracleSound.oracleRounding_needs_equal_constants.2.2.1,
+   Proofs.MoreOracleSound.oracleRounding_needs_equal_constants.2.2.2⟩
 
 /-! ### tie to the source: the function bodies regenerated from /repo/src on this run
 
